@@ -57,6 +57,7 @@ type K struct {
 	// PostRun checks run after the bubble has ended, on the real clock (e.g. porcupine)
 	PostRun []func() *Violation
 	evSeq   int64
+	noBubble bool
 }
 
 func NewK(c *Chooser) *K {
